@@ -216,14 +216,14 @@ func (na *NilAn) paramNeeds(g *ssa.Function, k int, depth int) bool {
 					continue
 				}
 				if bigMethod(u) != "" {
-					for _, a := range u.Call.Args {
+					for _, a := range callArgs(u) {
 						if a == v {
 							res = true
 						}
 					}
 					continue
 				}
-				args := u.Call.Args
+				args := callArgs(u)
 				off := 0
 				if u.Call.IsInvoke() {
 					off = 1
@@ -276,7 +276,7 @@ func (na *NilAn) collectSites() []derefSite {
 				na.indexSites(fn, x, x.X, x.Index, &out)
 			case *ssa.Call:
 				if m := bigMethod(x); m != "" {
-					for _, a := range x.Call.Args {
+					for _, a := range callArgs(x) {
 						if isBigIntPtr(a.Type()) {
 							add(x, a, "big.Int."+m)
 						}
@@ -288,7 +288,7 @@ func (na *NilAn) collectSites() []derefSite {
 					off = 1
 				}
 				cs := na.P.callees(x)
-				for j, a := range x.Call.Args {
+				for j, a := range callArgs(x) {
 					for _, g := range cs {
 						if inModuleFn(g) && na.paramNeeds(g, j+off, 0) {
 							add(x, a, "passed to "+FuncKey(g)+" which dereferences it")
